@@ -513,7 +513,7 @@ fn scale_leg(total: &mut Ev, thorough: bool) {
     use rayon::prelude::*;
     let mut sizes = vec![40usize, 255, 256, 257, 1000, 4100];
     if thorough {
-        sizes.extend([8200usize, 20000]);
+        sizes.extend([8200usize, 10900]); // six words per symbol: label values must stay below 2^16 to fit a .dw
     }
     let results: Vec<(usize, String, Result<(), String>, serde_json::Value)> = sizes
         .into_par_iter()
